@@ -398,6 +398,7 @@ impl ConvexCell<WithoutFaces> {
                 verif_filter,
                 verif_exact_args,
                 clip,
+                (p.right_idx, p.shift),
             );
             if clip < 0. {
                 num_v -= 1;
